@@ -59,6 +59,22 @@ pub fn check(v: &View, vd: &mut Verdict) {
                 if handled.len() >= 2 {
                     multi_fire = true;
                 }
+                // interval_with waits for its send: on a rendezvous mailbox (bounded 0) the send of tick k
+                // completes when the actor takes it out, and tick k+1 comes one period after that
+                if t.kind == TimerKind::IntervalWith && v.rt[a].mailbox == Mailbox::Bounded(0) {
+                    for k in 1..t.created.len() {
+                        let prev_taken = v.invs.iter().find(|i| i.msg == MsgRef::Tick { timer: *id, n: (k - 1) as u32 }).map(|i| i.enter_time);
+                        if let Some(pt) = prev_taken {
+                            if t.created[k].1 < pt + t.ticks {
+                                vd.fail(
+                                    "C10/period_too_short_after_blocked_send",
+                                    format!("actor {a} (bounded 0): interval_with timer {id} (period {}): tick {} was taken out at t={pt}, tick {k} was produced at t={}", t.ticks, k - 1, t.created[k].1),
+                                );
+                                break;
+                            }
+                        }
+                    }
+                }
                 // exactly k deliveries after k periods on an otherwise idle actor
                 let idle = v.invs.iter().filter(|i| i.actor == a).all(|i| matches!(i.msg, MsgRef::Tick { .. }) && i.enter_time == i.exit_time && i.exit.is_some())
                     && v.alive_until(a) >= teardown
@@ -128,6 +144,52 @@ pub fn check(v: &View, vd: &mut Verdict) {
             };
             if still_pending && t.reg_stamp < dead {
                 pending_at_end = true;
+            }
+        }
+    }
+    // a tick produced after the last strong handle was dropped can never be submitted (the timer only
+    // holds a weak sender), let alone handled
+    {
+        let n = v.actors.len();
+        let mut strong = vec![0i64; n];
+        let mut zero_at: Vec<Option<u64>> = vec![None; n];
+        for e in v.hist {
+            match &e.kind {
+                EvKind::HandleNew { actor, kind, .. } if kind.strong() => {
+                    strong[*actor] += 1;
+                    zero_at[*actor] = None;
+                }
+                EvKind::HandleDrop { actor, kind, .. } if kind.strong() => {
+                    strong[*actor] -= 1;
+                    if strong[*actor] == 0 {
+                        zero_at[*actor] = Some(e.stamp);
+                    }
+                }
+                _ => {}
+            }
+        }
+        for (id, t) in &timers {
+            let Some(z) = zero_at[t.actor] else { continue };
+            if v.rt[t.actor].origin != Origin::Setup {
+                continue;
+            }
+            // a timer whose waiting send is blocked on a full bounded mailbox holds an upgraded sender meanwhile
+            let waiting_timer = matches!(v.rt[t.actor].mailbox, Mailbox::Bounded(_))
+                && timers.values().any(|o| o.actor == t.actor && matches!(o.kind, TimerKind::IntervalWith | TimerKind::DelayedSend));
+            if waiting_timer {
+                continue;
+            }
+            // in-flight client operations may still hold temporaries: only ticks produced after they all ended
+            let quiet = v.client_ops().filter(|o| o.actor == Some(t.actor) && o.begin < z).map(|o| o.end_or_max()).max().unwrap_or(0).max(z);
+            for (k, (s, time)) in t.created.iter().enumerate() {
+                if *s > quiet && quiet != u64::MAX {
+                    if let Some(i) = v.invs.iter().find(|i| i.msg == MsgRef::Tick { timer: *id, n: k as u32 }) {
+                        vd.fail(
+                            format!("C10/tick_after_last_drop/{:?}", t.kind),
+                            format!("actor {}: the last strong handle was dropped at {z}; timer {id} ({:?}) produced tick {k} at {s} (t={time}) and it was handled at {}: the timer kept the actor reachable", t.actor, t.kind, i.enter),
+                        );
+                    }
+                }
             }
         }
     }
